@@ -76,4 +76,129 @@ ExtractionKeepsAnalysis(ord, c) ==
   \A S \in SubsetsOf(DOMAIN c) \ {{}} :
      /\ LET R == Basis(c, S)  ex == Extract(ord, c, R) IN Captures(c, R, ex) \/ KeepsAnalysis(c, R, ex)
      /\ MaxPartDefined(c, S) => LET R == MaxPart(c, S)  ex == Extract(ord, c, R) IN Captures(c, R, ex) \/ KeepsAnalysis(c, R, ex)
+-----------------------------------------------------------------------------
+(***************************************************************************)
+(*   C12  Merge(S1, S2)   = S1 plus a copy of every constituent of S2     *)
+(*                          (identifier / alias re-issued when taken, all  *)
+(*                          mentions inside the copies follow at once)     *)
+(*        Equate(S, E)    = every key of the table E is replaced by its    *)
+(*                          value in all texts and erased; duplicates that *)
+(*                          arise are merged                               *)
+(*        Synth(S1,S2,E)  = Merge, Equate (or DeleteDuplicates when E is   *)
+(*                          empty), ResetAliases; translations for both    *)
+(*                          operands                                       *)
+(* A schema value is [ord |-> list of identifiers, c |-> records].         *)
+(***************************************************************************)
+AliasesOf(c) == {c[u].alias : u \in DOMAIN c}
+UidOf(c, a) == CHOOSE u \in DOMAIN c : c[u].alias = a
+IsBaseSetKind(k) == k \in {"base", "constant"}
+IsBaseNotionKind(k) == k \in {"base", "constant", "structured"}
+IsRSObjectKind(k) == k \in {"base", "constant", "structured", "term"}
+
+\* ---- merge
+RECURSIVE MergeIns(_, _, _, _, _, _)
+MergeIns(i, S2, ord, c, fresh, acc) ==
+  IF i > Len(S2.ord) THEN [ord |-> ord, c |-> c, tr |-> acc.tr, names |-> acc.names]
+  ELSE LET u == S2.ord[i]  r == S2.c[u]
+           taken == AliasesOf(c)
+           clash == u \in DOMAIN c
+           nu == IF clash THEN Head(fresh) ELSE u
+           na == IF NeedNameChange(r.alias, r.kind, taken) THEN NewName(r.kind, taken) ELSE r.alias
+       IN MergeIns(i + 1, S2, InsertAtPos(ord, InsPos(ord, c, r.kind), nu), (nu :> [r EXCEPT !.alias = na]) @@ c,
+                   IF clash THEN Tail(fresh) ELSE fresh, [tr |-> (u :> nu) @@ acc.tr, names |-> (r.alias :> na) @@ acc.names])
+MergeSchemas(S1, S2, fresh) ==
+  LET r == MergeIns(1, S2, S1.ord, S1.c, fresh, [tr |-> <<>>, names |-> <<>>])
+      map == [a \in {x \in DOMAIN r.names : r.names[x] # x} |-> r.names[a]]
+      inserted == {r.tr[u] : u \in DOMAIN S2.c}
+  IN [ord |-> r.ord, c |-> [u \in DOMAIN r.c |-> IF u \in inserted THEN RenRec(r.c[u], map) ELSE r.c[u]], tr |-> r.tr]
+
+\* ---- equation table E : key identifier -> value identifier (the key is removed, the value stays)
+TransDeps(c, v) == Basis(c, Deps(c, v))            \* everything v's definition depends on, transitively
+\* a typification after the identification: the base name of a key stands for the elements of its value
+RECURSIVE SubT(_, _, _, _, _)
+SubT(t, c, an, E, fuel) ==
+  IF IsBad(t) THEN t
+  ELSE IF t.k = "base" THEN
+    LET ks == {k \in DOMAIN E : c[k].alias = t.id} IN
+    IF ks = {} THEN t
+    ELSE LET v == E[CHOOSE k \in ks : TRUE]  tv == an[c[v].alias].type IN
+         IF fuel = 0 \/ tv.k # "bool" THEN Bad("notASet") ELSE SubT(tv.c[1], c, an, E, fuel - 1)
+  ELSE LET cs == [i \in DOMAIN t.c |-> SubT(t.c[i], c, an, E, fuel)] IN
+       IF \E i \in DOMAIN cs : IsBad(cs[i]) THEN Bad("notASet") ELSE [t EXCEPT !.c = cs]
+PairOK(S, an, E, k) ==
+  LET v == E[k]  c == S.c IN
+  /\ k # v /\ k \in DOMAIN c /\ v \in DOMAIN c
+  /\ IsRSObjectKind(c[k].kind) /\ IsRSObjectKind(c[v].kind)
+  /\ ~(~IsBaseSetKind(c[k].kind) /\ IsBaseSetKind(c[v].kind))
+  /\ ~(~IsBaseNotionKind(c[k].kind) /\ IsBaseNotionKind(c[v].kind))
+  /\ k \notin TransDeps(c, v)                                   \* the value is not defined through the key
+  /\ an[c[k].alias].ok /\ an[c[v].alias].ok
+  /\ (IsBaseSetKind(c[k].kind) /\ ~IsBaseSetKind(c[v].kind)) => an[c[v].alias].type.k = "bool"     \* a base set can only become a set
+  /\ v \notin DOMAIN E
+EqAdmissible(S, E) ==
+  LET an == Analysis(S.c) IN
+  /\ DOMAIN E # {}
+  /\ \A k \in DOMAIN E : PairOK(S, an, E, k)
+  /\ \A k \in DOMAIN E :
+       (~IsBaseSetKind(S.c[k].kind) /\ ~IsBaseSetKind(S.c[E[k]].kind)) =>
+          LET a == SubT(an[S.c[k].alias].type, S.c, an, E, 4)  b == SubT(an[S.c[E[k]].alias].type, S.c, an, E, 4)
+          IN ~IsBad(a) /\ ~IsBad(b) /\ a = b
+EqPairs(E) == LET ks == SetToSeq(DOMAIN E) IN [i \in DOMAIN ks |-> <<ks[i], E[ks[i]]>>]
+\* KD: the keys whose texts win (option "keep the texts of the removed constituent"; a swapped pair of a synthesis has it):
+\* the value takes over the key's term and definition text; otherwise the value keeps its own
+Equate(S, E, KD) ==
+  LET names == [a \in {S.c[k].alias : k \in DOMAIN E} |-> S.c[E[UidOf(S.c, a)]].alias]
+      c0 == [u \in DOMAIN S.c |-> IF \E k \in KD : E[k] = u
+                                   THEN LET k == CHOOSE x \in KD : E[x] = u IN [S.c[u] EXCEPT !.term = S.c[k].term, !.text = S.c[k].text]
+                                   ELSE S.c[u]]
+      c1 == [u \in DOMAIN S.c \ DOMAIN E |-> RenRec(c0[u], names)]
+      ord1 == SelectSeq(S.ord, LAMBDA u : u \notin DOMAIN E)
+      d == Dedup(ord1, c1, <<>>)
+  IN [ord |-> d.ord, c |-> d.c, pairs |-> EqPairs(E) \o d.tr]
+\* where an identifier ends up: follow erased -> absorbing pairs
+RECURSIVE FinalOf(_, _, _)
+FinalOf(u, pairs, fuel) ==
+  LET hit == {i \in DOMAIN pairs : pairs[i][1] = u} IN
+  IF hit = {} \/ fuel = 0 THEN u ELSE FinalOf(pairs[CHOOSE i \in hit : TRUE][2], pairs, fuel - 1)
+
+\* ---- synthesis (ops::BinarySynthes): E maps identifiers of S1 to identifiers of S2
+SwapNeeded(c, k, v) == c[k].kind # c[v].kind /\ ~IsBaseSetKind(c[k].kind) /\ IsBaseNotionKind(c[v].kind)
+Synth(S1, S2, E, fresh) ==
+  LET m == MergeSchemas(S1, S2, fresh)
+      M == [ord |-> m.ord, c |-> m.c]
+      E2 == [k \in DOMAIN E |-> m.tr[E[k]]]
+      swaps == {k \in DOMAIN E2 : SwapNeeded(m.c, k, E2[k])}
+      E3 == [x \in (DOMAIN E2 \ swaps) \cup {E2[k] : k \in swaps} |-> IF x \in DOMAIN E2 \ swaps THEN E2[x] ELSE CHOOSE k \in swaps : E2[k] = x]
+      defined == DOMAIN E = {} \/ EqAdmissible(M, E3)
+      eq == IF DOMAIN E = {} THEN LET d == Dedup(M.ord, M.c, <<>>) IN [ord |-> d.ord, c |-> d.c, pairs |-> d.tr] ELSE Equate(M, E3, {E2[k] : k \in swaps})
+  IN IF ~defined THEN [defined |-> FALSE, merged |-> M, table |-> E3, mtr |-> m.tr]
+     ELSE [defined |-> TRUE, merged |-> M, table |-> E3, mtr |-> m.tr, ord |-> eq.ord, c |-> ResetF(eq.ord, eq.c), pairs |-> eq.pairs,
+           t1 |-> [u \in DOMAIN S1.c |-> FinalOf(u, eq.pairs, 8)],
+           t2 |-> [u \in DOMAIN S2.c |-> FinalOf(m.tr[u], eq.pairs, 8)]]
+
+\* ---- the contract of the statement, as predicates on (operands, table, result) - checked on the model's own results by TLC
+RefNames(q) == {q[i].s : i \in {j \in DOMAIN q : q[j].r}}
+NoDangling(S) == \A u \in DOMAIN S.c : DefMentions(S.c[u]) \cup RefNames(S.c[u].text) \cup RefNames(S.c[u].term) \subseteq AliasesOf(S.c)
+FullyCorrect(S) == LET an == Analysis(S.c) IN \A u \in DOMAIN S.c : an[S.c[u].alias].ok
+NameImage(S, t, R) == [a \in AliasesOf(S.c) |-> R.c[t[UidOf(S.c, a)]].alias]          \* operand alias -> alias of its image
+LikeWithLike(c, E) == \A k \in DOMAIN E : c[k].kind = c[E[k]].kind
+SynthContract(S1, S2, E, r) ==
+  LET R == [ord |-> r.ord, c |-> r.c]
+      keys == DOMAIN r.table
+      img1 == NameImage(S1, r.t1, R)  img2 == NameImage(S2, r.t2, R)
+  IN /\ Len(R.ord) = Cardinality(DOMAIN R.c) /\ {R.ord[i] : i \in DOMAIN R.ord} = DOMAIN R.c
+     /\ \A u, v \in DOMAIN R.c : u # v => R.c[u].alias # R.c[v].alias                           \* unique aliases
+     /\ \A u \in DOMAIN R.c : KindOfName(R.c[u].alias) = R.c[u].kind
+     /\ \A u \in DOMAIN S1.c : r.t1[u] \in DOMAIN R.c                                             \* translations are total and into the result
+     /\ \A u \in DOMAIN S2.c : r.t2[u] \in DOMAIN R.c
+     /\ \A k \in DOMAIN E : r.t1[k] = r.t2[E[k]]                                                   \* equated pairs share their image
+     \* every definition of the result is the image of the operand's definition (equation keys lose theirs to the value)
+     /\ NoDangling(S1) => \A u \in DOMAIN S1.c : u \in keys \/ R.c[r.t1[u]].def = RenDef(S1.c[u].def, img1)
+     /\ NoDangling(S2) => \A u \in DOMAIN S2.c : r.mtr[u] \in keys \/ R.c[r.t2[u]].def = RenDef(S2.c[u].def, img2)
+     \* correct operands and a like-with-like table: the result is fully correct and every image keeps its typification
+     /\ (FullyCorrect(S1) /\ FullyCorrect(S2) /\ LikeWithLike(r.merged.c, r.table)) =>
+          LET an == Analysis(R.c)  a1 == Analysis(S1.c)  a2 == Analysis(S2.c) IN
+          /\ \A u \in DOMAIN R.c : an[R.c[u].alias].ok
+          /\ \A u \in DOMAIN S1.c : an[R.c[r.t1[u]].alias].type = RenType(a1[S1.c[u].alias].type, img1)
+          /\ \A u \in DOMAIN S2.c : an[R.c[r.t2[u]].alias].type = RenType(a2[S2.c[u].alias].type, img2)
 =============================================================================
